@@ -44,7 +44,10 @@ ENV = {ADDR: ["msg.sender", "self", "tx.origin", "block.coinbase"], U256: ["bloc
 
 SHAPES = ["literal", "constant", "immutable", "empty", "ifexp_rt", "ifexp_const", "storage", "transient", "local", "calldata",
           "internal", "struct_storage", "struct_memory", "arr_elem", "dyn_elem", "convert", "max_value", "min_value", "fold",
-          "env0", "env1", "env2", "env3", "nested", "len0", "len1", "lenmax", "slice_res", "concat_res", "abi_encode_res", "ifexp_const_f"]
+          "env0", "env1", "env2", "env3", "nested", "len0", "len1", "lenmax", "slice_res", "concat_res", "abi_encode_res", "ifexp_const_f",
+          # round 4, second batch: producers with several definitions / locations / side effects
+          "ifexp_args", "ifexp_nested", "ifexp_storage", "internal_ifexp", "hashmap_val", "struct_nested", "staticcall_res",
+          "abi_decode_res", "pop_res"]
 
 
 def short(t):
@@ -80,6 +83,40 @@ def shape_expr(shape, T, P, k, nested=None):
         return f"({l1} if True else {l2})"
     if shape == "ifexp_const_f":
         return f"({l1} if False else {l2})"
+    if shape == "ifexp_args":
+        P.params.append((f"ia{k}_", T))
+        P.params.append((f"ib{k}_", T))
+        return f"(ia{k}_ if b_ else ib{k}_)"
+    if shape == "ifexp_nested":
+        return f"({l1} if b_ else ({l2} if not b_ else {l1}))"
+    if shape == "ifexp_storage":
+        P.decls.append(f"si{k}_: {T}")
+        P.init.append(f"self.si{k}_ = {l1}")
+        return f"(self.si{k}_ if b_ else {l2})"
+    if shape == "internal_ifexp":
+        P.helpers.append(f"@internal\n@pure\ndef _ii{k}_(x: {T}) -> {T}:\n    return x\n")
+        return f"self._ii{k}_(({l1} if b_ else {l2}))"
+    if shape == "hashmap_val":
+        P.decls.append(f"hm{k}_: HashMap[uint256, {T}]")
+        P.init.append(f"self.hm{k}_[1] = {l1}")
+        return f"self.hm{k}_[1]"
+    if shape == "struct_nested":
+        P.decls.append(f"struct In{k}_:\n    q: {T}\n")
+        P.decls.append(f"struct Out{k}_:\n    p: uint256\n    inner: In{k}_\n")
+        P.decls.append(f"so{k}_: Out{k}_")
+        P.init.append(f"self.so{k}_ = Out{k}_(p=1, inner=In{k}_(q={l1}))")
+        return f"self.so{k}_.inner.q"
+    if shape == "staticcall_res":
+        P.decls.append(f"interface Ie{k}_:\n    def echo{k}_(x: {T}) -> {T}: view\n")
+        P.helpers.append(f"@external\n@view\ndef echo{k}_(x: {T}) -> {T}:\n    return x\n")
+        return f"staticcall Ie{k}_(self).echo{k}_({l1})"
+    if shape == "abi_decode_res":
+        P.params.append((f"ad{k}_", T))
+        return f"abi_decode(abi_encode(ad{k}_), {T})"
+    if shape == "pop_res":
+        P.decls.append(f"dp{k}_: DynArray[{T}, 3]")
+        P.pre.append(f"self.dp{k}_ = [{l2}, {l1}]")
+        return f"self.dp{k}_.pop()"
     if shape == "storage":
         P.decls.append(f"s{k}_: {T}")
         P.init.append(f"self.s{k}_ = {l1}")
@@ -292,8 +329,24 @@ for ty in CONSUMER_TYPES:
     t("@log", sn, None, "log Ev_(x={0}, y=b_)", [ty], decls=[f"event Ev_:\n    x: {ty}\n    y: bool\n"])
     if ty in WORD_TYPES:
         t("@log_indexed", sn, None, "log Ei_(x={0}, y=b_)", [ty], decls=[f"event Ei_:\n    x: indexed({ty})\n    y: bool\n"])
-    t("@store", sn, None, "self.zz_ = {0}", [ty], decls=[f"zz_: {ty}"])
-    t("@tstore", sn, None, "self.tz_ = {0}", [ty], decls=[f"tz_: transient({ty})"])
+    t("@store", sn, None, "self.zz_ = {0}", [ty], decls=[f"zz_: {ty}"], post=(ty, "self.zz_"))
+    t("@tstore", sn, None, "self.tz_ = {0}", [ty], decls=[f"tz_: transient({ty})"], post=(ty, "self.tz_"))
+    t("@hashmap_store", sn, None, "self.hz_[2] = {0}", [ty], decls=[f"hz_: HashMap[uint256, {ty}]"], post=(ty, "self.hz_[2]"))
+    t("@local_assign", sn, None, "loc_: " + ty + " = {0}\n    loc_ = {1}", [ty, ty], post=(ty, "loc_"))
+    t("@internal_two_args", sn, f"({ty}, {ty})", "self._g2_({0}, {1})", [ty, ty],
+      helpers=[f"@internal\ndef _g2_(x: {ty}, y: {ty}) -> ({ty}, {ty}):\n    return y, x\n"])
+    t("@internal_arg_twice", sn, f"({ty}, {ty})", "self._g2_({0}, {0})", [ty],
+      helpers=[f"@internal\ndef _g2_(x: {ty}, y: {ty}) -> ({ty}, {ty}):\n    return y, x\n"])
+    t("@internal_nested", sn, ty, "self._g_(self._g_({0}))", [ty], helpers=[f"@internal\ndef _g_(x: {ty}) -> {ty}:\n    return x\n"])
+    t("@internal_ret_store", sn, None, "self.zz_ = self._g_({0})", [ty], decls=[f"zz_: {ty}"], post=(ty, "self.zz_"),
+      helpers=[f"@internal\ndef _g_(x: {ty}) -> {ty}:\n    return x\n"])
+    t("@internal_kwarg", sn, ty, "self._k_(1, {0})", [ty],
+      helpers=[f"@internal\ndef _k_(n: uint256, x: {ty} = {LITS[ty][1]}) -> {ty}:\n    return x\n"])
+    t("@internal_mutating", sn, f"({ty}, uint256)", "self._m_({0}), self.cnt_", [ty], decls=["cnt_: uint256"],
+      helpers=[f"@internal\ndef _m_(x: {ty}) -> {ty}:\n    self.cnt_ += 1\n    return x\n"])
+    t("@internal_in_loop", sn, None, "for i_: uint256 in range(2):\n        self.zz_ = self._g_({0})", [ty], decls=[f"zz_: {ty}"],
+      post=(ty, "self.zz_"), helpers=[f"@internal\ndef _g_(x: {ty}) -> {ty}:\n    return x\n"])
+    t("@if_branch_assign", sn, None, "loc_: " + ty + " = {1}\n    if b_:\n        loc_ = {0}", [ty, ty], post=(ty, "loc_"))
     t("@return", sn, ty, "{0}", [ty])
     t("@tuple_ret", sn, f"({ty}, uint256)", "{0}, 7", [ty])
     t("@extcall", sn, None, "extcall If_(msg.sender).g({0})", [ty], decls=[f"interface If_:\n    def g(x: {ty}): nonpayable\n"])
@@ -301,18 +354,33 @@ for ty in CONSUMER_TYPES:
     t("@internal_arg", sn, ty, "self._g_({0})", [ty], helpers=[f"@internal\ndef _g_(x: {ty}) -> {ty}:\n    return x\n"])
     t("@internal_default", sn, ty, "self._d_()", [], helpers=[f"@internal\ndef _d_(x: {ty} = {LITS[ty][0]}) -> {ty}:\n    return x\n"])
     if ty != DYNB:
-        t("@append", sn, None, "self.dz_.append({0})", [ty], decls=[f"dz_: DynArray[{ty}, 4]"])
+        t("@append", sn, None, "self.dz_.append({0})", [ty], decls=[f"dz_: DynArray[{ty}, 4]"], post=(f"DynArray[{ty}, 4]", "self.dz_"))
+        t("@for_list", sn, None, "for e_: " + ty + " in [{0}, {1}]:\n        self.zz_ = e_\n        if b_:\n            break", [ty, ty],
+          decls=[f"zz_: {ty}"], post=(ty, "self.zz_"))
         t("@struct", sn, "W_", "W_(x={0}, y=1)", [ty], decls=[f"struct W_:\n    x: {ty}\n    y: uint256\n"])
         t("@list_lit", sn, f"DynArray[{ty}, 3]", "[{0}, {1}]", [ty, ty])
     if ty not in (ARR2, DYNB):
         t("@eq", sn, BOOL, "{0} == {1}", [ty, ty])
         t("@ne", sn, BOOL, "{0} != {1}", [ty, ty])
     t("@ifexp_branch", sn, ty, "{0} if b_ else {1}", [ty, ty])
+t("@for_iter", "arr2", None, "for e_: uint256 in {0}:\n        self.cnt_ += e_", [ARR2], decls=["cnt_: uint256"], post=(U256, "self.cnt_"))
+t("@for_iter", "dynb", None, "for e_: bytes32 in {0}:\n        self.acc_ = self.acc_ ^ e_", [DYNB], decls=["acc_: bytes32"], post=(B32, "self.acc_"))
+t("@len_dyn", "", U256, "len({0})", [DYNB])
+t("@index_arr2", "", U256, "{0}[1]", [ARR2])
+t("@index_dynb", "", B32, "{0}[0]", [DYNB])
+t("@assert_cond", "", None, "assert {0}", [BOOL])
+t("@assert_unreachable", "", None, "assert {0}, UNREACHABLE", [BOOL])
+for op in ("+=", "-=", "*=", "//=", "%=", "&=", "|=", "^=", "<<=", ">>="):
+    t("@augassign", op, None, "self.au_ " + op + " {0}", [U256], decls=["au_: uint256"], post=(U256, "self.au_"))
+for op in ("+=", "-=", "*=", "//=", "%="):
+    t("@augassign_i", op, None, "loc_: int128 = 100\n    loc_ " + op + " {0}", [I128], post=(I128, "loc_"))
+for op in ("+=", "-=", "*=", "/="):
+    t("@augassign_d", op, None, "self.ad_ " + op + " {0}", [DEC], decls=["ad_: decimal"], post=(DEC, "self.ad_"))
 t("@assert_reason", "", None, "assert b_, {0}", [ST])
 t("@raise_reason", "", None, "raise {0}", [ST])
 t("@if", "", U256, "1 if {0} else 2", [BOOL])
 t("@not", "", BOOL, "not {0}", [BOOL])
-t("@range_bound", "", None, "for i_: uint256 in range({0}, bound=4):\n        self.cnt_ += i_", [U256], decls=["cnt_: uint256"])
+t("@range_bound", "", None, "for i_: uint256 in range({0}, bound=4):\n        self.cnt_ += i_", [U256], decls=["cnt_: uint256"], post=(U256, "self.cnt_"))
 t("@index_static", "", U256, "self.ia_[{0}]", [U256], decls=["ia_: uint256[3]"])
 t("@index_dyn", "", U256, "self.id_[{0}]", [U256], decls=["id_: DynArray[uint256, 3]"])
 t("@hashmap_key_b", "", U256, "self.hb_[{0}]", [BY], decls=["hb_: HashMap[Bytes[64], uint256]"])
@@ -366,11 +434,14 @@ def build(tpl, hole, shape):
         out.append("@deploy\ndef __init__():\n" + "".join(f"    {x}\n" for x in P.init))
     out += P.helpers
     deco = "@external\n" + ("@payable\n" if P.payable else "") + ("@view\n" if tpl["flags"].get("view") and not P.payable and
-                                                                   not any(x.startswith("self.t") for x in P.pre) else "")
+                                                                   not any(x.startswith("self.") for x in P.pre) else "")
     params = [("b_", BOOL)] + P.params
     sig = ", ".join(f"{n}: {ty}" for n, ty in params)
     body = "".join(f"    {x}\n" for x in P.pre)
-    if tpl["ret"] is None:
+    post = tpl["flags"].get("post")
+    if tpl["ret"] is None and post:
+        fn = f"{deco}def f({sig}) -> {post[0]}:\n{body}    {call}\n    return {post[1]}\n"
+    elif tpl["ret"] is None:
         fn = f"{deco}def f({sig}):\n{body}    {call}\n"
     else:
         fn = f"{deco}def f({sig}) -> {tpl['ret']}:\n{body}    return {call}\n"
